@@ -311,6 +311,12 @@ class Gen:
         for d in dcs:
             if '"%s"' % d not in used and r.random() < 0.7:
                 root['fields'].insert(0, {'name': self.t('f'), 'type': ['ref', d]})
+        # nested classes with their OWN Meta, different from the root's, in settings that change
+        # which names the generated code mentions (unknown-key action)
+        for t in self.types:
+            if t['kind'] == 'dataclass' and t['id'] != root['id'] and r.random() < 0.4:
+                t['meta'] = ({'v1_unknown': r.choice(['RAISE', 'WARN'])} if self.engine == 'v1'
+                             else {'raise_unknown': True})
         meta = {}
         if self.union_members:
             if r.random() < 0.5:
@@ -383,9 +389,13 @@ class Gen:
             return r.choice(t[1:])
         raise ValueError(t)
 
+    inject_nested_unknown = False
+
     def doc_dc(self, spec, ts):
         r = self.r
         doc = {}
+        if self.inject_nested_unknown and ts['id'] != spec['root']:
+            doc[self.t('s')] = 1
         for f in ts['fields']:
             if f.get('catch_all'):
                 continue
@@ -439,6 +449,11 @@ class Gen:
             d4[f.get('alias') if f.get('alias') is not None else f['name']] = {'zz': 1}
             ops.append({'op': 'load', 'doc': d4})
         ops.append({'op': 'load', 'doc': None})
+        # an unknown key inside every nested object (exercises the nested classes' own unknown-key branch)
+        self.inject_nested_unknown = True
+        for _ in range(2):
+            ops.append({'op': 'load', 'doc': self.doc_dc(spec, root)})
+        self.inject_nested_unknown = False
         return ops
 
 
@@ -647,6 +662,12 @@ def class_tag(spec, ts):
     return None
 
 
+def effective(spec, ts, key):
+    """a class's own Meta wins over the root's (Meta `|`: the first operand has priority)"""
+    own = ts.get('meta') or {}
+    return own[key] if key in own else spec['meta'].get(key)
+
+
 def shape_v0_load(spec, ts):
     fs = ts['fields']
     paths = [f for f in fs if f.get('path') is not None]
@@ -662,7 +683,7 @@ def shape_v0_load(spec, ts):
             for f in paths]),
         coq_bool(len(paths) != len(fs)),
         coq_opt('(%s, %s)' % (cs(ca[0]['name']), coq_bool(ca[0].get('default') is not None))) if ca else 'None',
-        tk, coq_bool(bool(spec['meta'].get('raise_unknown'))))
+        tk, coq_bool(bool(effective(spec, ts, 'raise_unknown'))))
 
 
 def shape_v0_dump(spec, ts, env=False):
@@ -732,7 +753,7 @@ def shape_v1_load(spec, ts):
         else:
             key = 'KField'
         items.append('(Build_v1_field %s %s %s %s)' % (cs(f['name']), t, coq_bool(f.get('default') is not None), key))
-    uk = {None: 'UkNone', 'RAISE': 'UkRaise', 'WARN': 'UkWarn'}[spec['meta'].get('v1_unknown')]
+    uk = {None: 'UkNone', 'RAISE': 'UkRaise', 'WARN': 'UkWarn'}[effective(spec, ts, 'v1_unknown')]
     tag = class_tag(spec, ts)
     tag_key = spec['meta'].get('tag_key') or '__tag__'
     names = [f['name'] for f in ts['fields']]
@@ -868,7 +889,7 @@ def model_exprs_for(spec, res):
             cands = [t for t in by_name.get(nm, []) if t['kind'] == 'dataclass']
             if len(cands) != 1 or same_named_types(spec):
                 continue
-            if spec['meta'].get('auto_tags') and spec['meta'].get('v1_unknown') and cands[0]['id'] in union_member_ids(spec):
+            if spec['meta'].get('auto_tags') and effective(spec, cands[0], 'v1_unknown') and cands[0]['id'] in union_member_ids(spec):
                 # whether the tag key is expected depends on whether the class was first met as a
                 # plain field or inside the Union (order dependence noticed, reported to C13/C10)
                 continue
@@ -965,6 +986,15 @@ def run(ctx):
             for i, e in model_exprs_for(sp, res):
                 exprs.append(e)
                 expr_ref.append((ci, ri, i))
+            # ---- P3: no operation ends in a NameError raised by generated code ---------
+            for oi, o in enumerate(res.get('ops', [])):
+                msg = o.get('msg') or ''
+                if 'err' in o and (o['err'] == 'NameError' or ("name '" in msg and "is not defined" in msg)):
+                    fid = classify(ctx, sp, res, msg)
+                    report(ctx, fid, 'operation %d (%s) on a %s-engine model (%s) ran generated code that refers to a '
+                           'name nothing binds: %s: %s' % (oi, sp['ops'][oi]['op'], sp['engine'], label, o['err'], msg[:160]),
+                           {'kind': 'nameerror', 'spec': sp, 'op': oi})
+                    break
             # ---- P2: renaming ------------------------------------------------------
             if ri is None:
                 continue
@@ -1044,6 +1074,17 @@ def replay(ctx, obj, quiet=False):
         if not fails:
             say('every generated function parses and refers only to names it binds')
         return not fails
+    if kind == 'nameerror':
+        res = ctx.impl('c15', {'kind': 'model', 'spec': obj['spec']})
+        bad = [(i, o) for i, o in enumerate(res['ops'])
+               if 'err' in o and (o['err'] == 'NameError' or ("name '" in (o.get('msg') or '') and 'is not defined' in (o.get('msg') or '')))]
+        for i, o in bad:
+            say('op %d (%s): %s: %s' % (i, json.dumps(obj['spec']['ops'][i])[:200], o['err'], (o.get('msg') or '')[:200]))
+        for f in p1_failures(res):
+            say('generated function %s: %s' % f)
+        if not bad:
+            say('no operation raised a NameError')
+        return not bad
     if kind == 'rename':
         spec, R = obj['spec'], obj['renaming']
         base = ctx.impl('c15', {'kind': 'model', 'spec': spec})
